@@ -235,9 +235,18 @@ def run_check(pid, tier, seed):
         tool = [r for r in recs if r['kind'] == 'tool']
         undec = [r for r in recs if r['kind'] == 'undecided']
         if vr['summary'] is None or tool:
-            say(pid, 'UNDECIDED (exit 2): Verus did not complete: %s' % (tool[0]['message'] if tool else vr['stderr_tail'][-600:]))
+            msg = tool[0]['message'] if tool else vr['stderr_tail'][-600:]
+            say(pid, 'Verus did not complete: %s' % msg)
             for r in tool[:5]:
                 say(pid, '  ' + r['rendered'].split('\n')[0] + ' @ %s:%s' % (r.get('file'), r.get('line')))
+            if tool and ('not supported' in msg or 'not yet support' in msg or 'unsupported' in msg.lower()):
+                # the changed code is outside the verifier's subset: bounded stand-in (native oracle search over the stated lattices),
+                # labelled bounded; it can report a violation only with a concrete, replayable failing input
+                rp = concretise.bounded_standin(pid, msg, tool, REPO, scratch, say)
+                if rp:
+                    print('VIOLATION property=%s replay=%s' % (pid, rp), flush=True)
+                    return 1
+            say(pid, 'UNDECIDED (exit 2)')
             return 2
         fails = {}
         for r in recs:
@@ -306,6 +315,28 @@ def run_check(pid, tier, seed):
                 return 2
     kani_fail = [h for h in kani_res if h['status'] == 'failed' and h['role'] == 'complete']
 
+    # thorough tier: native re-execution of the witnesses of the repaired defects of this property, and the oracle searches;
+    # a hit without a failed obligation means the oracle or a contract is wrong -> undecided, never an alarm by itself
+    native = {'witnesses_run': 0, 'witnesses_failed': [], 'oracle_hit': None}
+    if tier == 'thorough':
+        exe = concretise.build_replay_crate(REPO, scratch)
+        if exe:
+            bad, nw = concretise.run_witnesses(exe, pid)
+            native['witnesses_run'] = nw
+            native['witnesses_failed'] = ['%s: %s' % b for b in bad]
+            try:
+                q = subprocess.run([exe, 'search', pid], stdout=subprocess.PIPE, stderr=subprocess.PIPE, text=True, timeout=900)
+                hits = [l[8:] for l in q.stdout.split('\n') if l.startswith('WITNESS ')]
+                native['oracle_hit'] = hits[0] if hits else None
+            except subprocess.TimeoutExpired:
+                native['oracle_hit'] = 'timeout'
+            say(pid, 'native replays: %d defect witnesses re-executed (%d fail), oracle search hit: %s' % (nw, len(bad), native['oracle_hit']))
+            if (bad or native['oracle_hit']) and not all_fail:
+                say(pid, 'UNDECIDED (exit 2): a native replay fails although every obligation is discharged (oracle or contract gap): %s %s' % (native['witnesses_failed'], native['oracle_hit']))
+                return 2
+        else:
+            say(pid, 'replay crate did not build; native replays skipped')
+
     # known findings
     findings = [f for f in load_findings() if f.get('property') == pid and f.get('status') == 'open']
     known_lines = []
@@ -354,6 +385,7 @@ def run_check(pid, tier, seed):
             'verus_runs': runs,
             'solver_ms_by_function': fn_times,
             'kani': [{k: h[k] for k in ('name', 'role', 'status', 'wall_s', 'bound')} for h in kani_res],
+            'native_replays': native,
             'vacuity_probes': {'checked': probes_checked, 'verified_unexpectedly': vacuous},
             'rewrites_applied': len(meta['rewrites']),
             'rewrite_rules': sorted({r['rule'] for r in meta['rewrites']}),
